@@ -41,6 +41,7 @@ type Query {
   label: Tag
   labelRef: TagRef
   labelAlso: Tag
+  odd: Thing
   vari(xs: [String]): String
   triple: String
   sized(s: Size, l: [Size]): String
@@ -368,6 +369,11 @@ type Query struct {
 	// crash-freedom check asks for it; which shape binds first decides the
 	// answer for the other).
 	LabelAlso *Label
+	// Odd is what an application mistake puts behind a union-typed field: a
+	// value of an unnamed Go type (a map built from decoded JSON). No member can
+	// match it; what the library answers for it depends on which members are
+	// bound already, so only fixed requests ask for it and nothing is compared.
+	Odd interface{}
 	// Chief is served by a second Go struct for the GraphQL type Keeper (other
 	// field order); only plain struct fields are ever selected beneath it.
 	Chief *KeeperAlt
@@ -723,6 +729,7 @@ func GenZoo(t *tape.Tape) *Query {
 	q.Label = Label{T: "t" + q.Title, A: "a" + q.Title}
 	q.LabelRef = &Label{T: "rt" + q.Title, A: "ra" + q.Title}
 	q.LabelAlso = &Label{T: "at" + q.Title, A: "aa" + q.Title}
+	q.Odd = map[string]interface{}{"name": "odd"}
 	q.Chief = &KeeperAlt{Rank: q.Boss.Rank, Age: q.Boss.Age + 1, Note: "alt", Name: "chief-" + q.Boss.Name}
 	for _, k := range q.Keepers {
 		if k == nil {
@@ -794,6 +801,18 @@ var LabelRequests = []string{
 	"{ labelAlso { title } }",
 	"{ labelAlso { title artist } }",
 	"{ p: labelAlso { artist } v: label { title } }",
+}
+
+// OddRequests: a union-typed field that yields a value of an unnamed Go type,
+// next to ordinary requests for the members of that union.
+var OddRequests = []string{
+	"{ odd { __typename } }",
+	"{ odd { ... on Dog { name } } title }",
+	"{ things { ... on Dog { name } ... on Bird { name } } }",
+	"{ things { ... on Keeper { name } ... on Cell { label } } }",
+	"{ animals { name } }",
+	"{ keepers { name pets { name } } }",
+	"{ grid { label } }",
 }
 
 var AltRequests = []string{
@@ -900,6 +919,8 @@ func zooField(q *Query, obj interface{}, name string, args map[string]interface{
 			return o.LabelRef, nil
 		case "labelAlso":
 			return o.LabelAlso, nil
+		case "odd":
+			return o.Odd, nil
 		case "relay":
 			return relay(o, toInt64(args["n"])), nil
 		case "pick":
